@@ -238,9 +238,8 @@ oppop[opmap["RERAISE"]] = 1
 
 
 def extended_format_BINARY_OP(opc, instructions) -> Tuple[str, Optional[int]]:
-    opname = _nb_ops[instructions[0].argval][1]
-    if opname == "%":
-        opname = "%%"
+    # The operator goes into a %-format string: escape "%" and "%=".
+    opname = _nb_ops[instructions[0].argval][1].replace("%", "%%")
     return extended_format_binary_op(opc, instructions, f"%s {opname} %s")
 
 
